@@ -703,6 +703,21 @@ theorem startActionName_witnesses :
     ∧ startActionName "UtteranceBotActionFinished".toList = none
     ∧ startActionName "StartAction".toList = some "Action".toList := by decide +kernel
 
+/-- **`startActionName` is the greedy match of the source's pattern `Start(.*Action)`** (tied to CPython `re` by the `fn`
+    differential on every run): the name follows `Start` literally, ends with `Action`, has no newline; it is the longest such
+    name on the first line; and when there is no match no prefix of the rest of the first line ends with `Action` -/
+theorem startActionName_spec (t n : Str) (h : startActionName t = some n) :
+    (("Start".toList ++ n) <+: t ∧ "Action".toList <:+ n ∧ '\n' ∉ n) ∧
+    (∀ q, q <+: (t.drop 5).takeWhile (· != '\n') → "Action".toList <:+ q → q.length ≤ n.length) :=
+  ⟨startActionName_sound t n h, fun q hq hs => startActionName_greedy t n q h hq hs⟩
+
+theorem startActionName_none_spec (t : Str) (h : startActionName t = none) (hp : "Start".toList <+: t) :
+    ∀ q, q <+: (t.drop 5).takeWhile (· != '\n') → ¬ "Action".toList <:+ q :=
+  fun q hq => startActionName_none t q h hp hq
+
+/-- non-vacuity of `startActionName_none_spec`: a `Start…` type without `Action` on its first line -/
+example : startActionName "Start\nAction".toList = none ∧ "Start".toList <+: "Start\nAction".toList := by decide +kernel
+
 end Assembly
 
 end NemoVerif.C17
